@@ -2,7 +2,7 @@
 from __future__ import annotations
 
 from .. import policy, policy_tree
-from ..engine import monitors, suite
+from ..engine import c05_fork, monitors, suite
 from ..runner import Env, Outcome
 
 THEOREMS = ["C05_source_shape", "C05_attempt_budget", "C05_non_retryable_once", "C05_delay_budget", "C05_retry_requeue",
@@ -62,8 +62,11 @@ def run(env: Env) -> Outcome:
     policy_tree.bounds_stream(env, out, env.budget(400, 8000))
     policy_tree.retry_info_correspondence(env, out, env.budget(300, 6000))
     suite.direct_corr(env, out, env.budget(2000, 40000))
-    suite.live_runs(env, out, env.budget(200, 4000), [monitors.mon_c05], extra_specs=suite.load_corpus("C05"))
-    suite.live_runs(env, out, env.budget(300, 6000), [monitors.mon_c05], gen_kwargs={"family": "retry"})
+    # observation (no violations): ticks that both re-run and retry one failed execution; the witness run on the real engine
+    forks = c05_fork.Observer(out)
+    c05_fork.witness(env, out)
+    suite.live_runs(env, out, env.budget(200, 4000), [monitors.mon_c05, forks.monitor], extra_specs=suite.load_corpus("C05"))
+    suite.live_runs(env, out, env.budget(300, 6000), [monitors.mon_c05, forks.monitor], gen_kwargs={"family": "retry"})
     # retried invocations that suspend in wait_for_event (before / after / around the wait), also under a catch_error handler
     suite.live_runs(env, out, env.budget(120, 2400), [monitors.mon_c05], gen_kwargs={"family": "wait_retry"})
     return out
